@@ -55,12 +55,14 @@ func verifClass(err error) string {
 	if errors.Is(err, errJobInvalid) {
 		return "invalid"
 	}
-	if errors.Is(err, context.Canceled) || errors.Is(err, context.DeadlineExceeded) {
-		return "ctx"
-	}
+	// Harness errors carry an identity; they may wrap a context error
+	// although they are ordinary job failures.
 	var ve VerifErr
 	if errors.As(err, &ve) {
 		return fmt.Sprintf("fail:%d", ve.VerifID())
+	}
+	if errors.Is(err, context.Canceled) || errors.Is(err, context.DeadlineExceeded) {
+		return "ctx"
 	}
 	if err.Error() == "job exited unexpectedly" {
 		return "exit"
